@@ -484,15 +484,28 @@ class Origins:
                     out.add(("env", 1))
             else:
                 out.add(("param", l))
-        key = (l, depth)
+        key = (l, depth, tuple((pl or {}).get("p", [])) if pl is not None else ())
         if key in seen:
             return
         seen.add(key)
+        rp = (pl or {}).get("p", []) if pl is not None else []
         for d in body.defs.get(l, []):
             if d[0] == "assign":
+                # field-sensitive: a write through projection W defines the value read through
+                # projection R only if one is a prefix of the other
+                wp = d[3].get("p", [])
+                if wp and rp:
+                    n = min(len(wp), len(rp))
+                    if wp[:n] != rp[:n]:
+                        continue
                 self._rvalue(d[4], depth, out, seen)
             else:
                 c = d[1]
+                wp = c.dest.get("p", []) if c.dest else []
+                if wp and rp:
+                    n = min(len(wp), len(rp))
+                    if wp[:n] != rp[:n]:
+                        continue
                 self._call(c, depth, out, seen)
 
     def _call(self, c, depth, out, seen):
